@@ -198,8 +198,14 @@ func Harness_C16_registered_while_connected() {
 	ctx := s.ctx
 	v.Assert("C16/context-live-before-shutdown", ctx.Err() == nil)
 	s.httpServer = &http.Server{}
-	_ = s.Shutdown(context.Background())
+	VerifHTTPShutdownFail = v.Choose("http-shutdown-fails", 2) == 1
+	err := s.Shutdown(context.Background())
+	v.Assert("C16/shutdown-reports-http-error", (err != nil) == VerifHTTPShutdownFail)
+	// whether or not the HTTP server shut down cleanly, upstream connections are closed
 	v.Assert("C16/shutdown-cancels-handlers", ctx.Err() != nil)
+	if VerifHTTPShutdownFail {
+		v.Cover("http-shutdown-failed")
+	}
 }
 
 var vProbe func()
@@ -208,10 +214,17 @@ var vProbe func()
 //
 //gosym:stub (*net/http.Server).Shutdown = VerifStubHTTPShutdown
 
-var VerifHTTPShutdowns []*http.Server
+var (
+	VerifHTTPShutdowns    []*http.Server
+	VerifHTTPShutdownFail bool
+)
 
 func VerifStubHTTPShutdown(srv *http.Server, ctx context.Context) error {
 	VerifHTTPShutdowns = append(VerifHTTPShutdowns, srv)
+	if VerifHTTPShutdownFail {
+		// e.g. the grace period expired while a connection was not idle
+		return context.DeadlineExceeded
+	}
 	return nil
 }
 
